@@ -34,6 +34,7 @@ import (
 	"github.com/lestrrat-go/jwx/v2/jwt"
 	"github.com/nuts-foundation/nuts-node/audit"
 	"github.com/nuts-foundation/nuts-node/core"
+	"github.com/nuts-foundation/nuts-node/crypto/jwx"
 	"github.com/nuts-foundation/nuts-node/http/log"
 	"github.com/sirupsen/logrus"
 )
@@ -147,6 +148,12 @@ func (m middlewareImpl) checkConnectionAuthorization(context echo.Context, next 
 			continue
 		}
 
+		// The JWX library infers the algorithms from the type of the key only, so make sure the algorithm of the
+		// signature also fits the authorized key (e.g. ES256 for a P-256 key, not ES384).
+		if err := signatureAlgorithmFitsKey(credential, authorizedKey); err != nil {
+			return unauthorizedError(context, fmt.Errorf("insecure credential: %w", err))
+		}
+
 		// The JWT was indeed signed by this authorized key, but that is not enough to authorize the request.
 		// Attempt to validate the parameters of the JWT, which ensures the audience, issued at, expiration, etc.
 		// are valid.
@@ -172,6 +179,22 @@ func (m middlewareImpl) checkConnectionAuthorization(context echo.Context, next 
 
 	// No authorized keys were able to verify the JWT, so this is an unauthorized request
 	return unauthorizedError(context, errors.New("credential not signed by an authorized key"))
+}
+
+// signatureAlgorithmFitsKey returns an error if the algorithm of the credential's signature can't be used with the authorized key.
+func signatureAlgorithmFitsKey(credential string, key authorizedKey) error {
+	message, err := jws.ParseString(credential)
+	if err != nil {
+		return err
+	}
+	if len(message.Signatures()) != 1 {
+		return errors.New("credential must contain exactly 1 signature")
+	}
+	publicKey, err := cryptoPublicKey(key.key)
+	if err != nil {
+		return err
+	}
+	return jwx.CheckAlgorithmFitsKey(message.Signatures()[0].ProtectedHeaders().Algorithm(), publicKey)
 }
 
 // accessGranted allows a connection to be handled
